@@ -260,6 +260,51 @@ func runC12(w *World, r *Report) {
 	r.Rule("C12.pointer-depth", "internalMarshal counts a pointer level before it looks at it: the PointerNum increment dominates every other block of the peeling loop (the typed-nil exit included)", 1)
 	pointerDepthCheck(w, r, "C12.pointer-depth")
 
+	// ---- registered struct types keep nothing in unexported fields (the codec walks exported fields only)
+	r.Rule("C12.registered-exported", "every struct type the framework registers with the serializer has exported fields only (an unexported field is dropped on the round trip, silently)", 5)
+	{
+		gr := w.Fn("internal/serialization", "GenericRegister")
+		rst := w.TryFn("compose", "RegisterSerializableType")
+		seen := map[string]bool{}
+		for _, fn := range w.RepoFuncs("") {
+			instrs(fn, func(in ssa.Instruction) {
+				c, ok := in.(ssa.CallInstruction)
+				if !ok {
+					return
+				}
+				f, ok := c.Common().Value.(*ssa.Function)
+				if !ok || (origin(f) != gr && (rst == nil || origin(f) != rst)) || len(f.TypeArgs()) != 1 {
+					return
+				}
+				t := f.TypeArgs()[0]
+				for {
+					p, ok := t.Underlying().(*types.Pointer)
+					if !ok {
+						break
+					}
+					t = p.Elem()
+				}
+				named := namedOf(t)
+				if named == nil || seen[named.String()] {
+					return
+				}
+				st, ok := named.Underlying().(*types.Struct)
+				if !ok {
+					return
+				}
+				seen[named.String()] = true
+				for i := 0; i < st.NumFields(); i++ {
+					fld := st.Field(i)
+					if _, isFunc := fld.Type().Underlying().(*types.Signature); isFunc && !fld.Exported() {
+						r.Info("C12.registered-exported", named.Obj().Name()+"."+fld.Name()+" (func-typed configuration)", fld.Pos(), "no codec can persist a func value; the owner rebuilds it (C05.channel-state checks that load restores every data field onto a rebuilt object)")
+						continue
+					}
+					r.Check(fld.Exported(), "C12.registered-exported", named.Obj().Name()+"."+fld.Name()+" is exported", fld.Pos(), "kept by the codec", "a registered (persisted) struct type has an unexported data field: its content is silently lost on every store round trip")
+				}
+			})
+		}
+	}
+
 	// ---- reflect typestate over the codec
 	r.Rule("C12.reflect-zero", "no possibly-nil reflect.Type / possibly-zero reflect.Value reaches a panicking method unguarded in the serializer", 0)
 	{
